@@ -157,7 +157,7 @@ def r5_3(ctx, rc):
         if callee_name(x) == R.cache + '.start_building_file':
             return True
         return bool(x.call.args) and _own_filename(
-            ctx.H.subst(x.call.args[0], x.func, x.cn))
+            ctx.H.subst_frames(x.call.args[0], x))
     pre = sg.reach([sg.entry], avoid=_is_user)
     cands = [x for x in sg.nodes if x.id in pre and touches_target(x)]
     key = '%s: a served-from-cache return leaves the output alone' % \
